@@ -362,7 +362,7 @@ fn exec_history(ctx: &mut Ctx, arena: &Arena, pl: &[u8], prog: &[Op]) {
 fn run(ctx: &mut Ctx) {
     let quick = ctx.quick();
     let arena = Arena::new(2);
-    let max_p = if quick { 32 } else { 40 };
+    let max_p = if quick { 32 } else if ctx.dev_profile() { 40 } else { 48 };
     ctx.bound("walk", format!("payload lengths 0,8,..,{}; at every offset the reference walk reaches: type in {{1,0,3,0x1337}} x size in 0..=P+17 + {{0x7FFFFFFF,0xFFFFFFF9,0xFFFFFFFF}} (every tiling and every way of failing to tile); marker payload bytes; TagIter::new on the raw payload and, when the last 8 bytes are an end tag, BootInformation::load + tags() + module_tags(); region flush against a guard page, fills A/B", max_p));
     let mut p = 0;
     while p <= max_p {
@@ -379,7 +379,7 @@ fn run(ctx: &mut Ctx) {
         p += 8;
     }
     // histories
-    let depth = if quick { 4 } else { 6 };
+    let depth = if quick { 4 } else if ctx.dev_profile() { 6 } else { 7 };
     let hp = if quick { 24 } else { 32 };
     ctx.bound("histories", format!("all call sequences up to depth {} over {{next(h), clone(h), fresh()}} on up to 3 live handles (no pruning), on every payload of length 0,8,..,{} built from sizes {{8,13,16,24,0,7,P+1}} and types {{1,3}}; after a panic the handle is dropped", depth, hp));
     let mut p = 0;
